@@ -290,6 +290,10 @@ PROPS = {
             ('pubsub', r'^(PubSocket|XPubSocket)::send$', {'post'}, r'fatal_for_publish|contains_key'),
             # a write that fails removes that peer from the table and the rotation (and only that peer)
             ('routing', r'^GenericSocketBackend::send_round_robin$', {'post', 'inv-entry', 'inv-end'}, None),
+            # ROUTER: a send addressed to an identity that is not in the table fails and writes nothing
+            ('routing', r'^RouterSocket::send$', {'post'}, None),
+            # corollary: a forgotten peer is never the one a later round-robin send chooses
+            ('routing', r'^tmpl::lemma_forgotten_not_chosen|^tmpl::lemma_first_live', A, None),
         ],
         'kani': {},
         'assumptions': [
